@@ -1,5 +1,7 @@
 mod common;
 mod stream;
+#[cfg(feature = "nightly")]
+mod prot;
 
 fn main() {
     let args: Vec<String> = std::env::args().skip(1).collect();
@@ -13,6 +15,8 @@ fn main() {
     match args[0].as_str() {
         "stream-replay" => stream::cmd_replay(rest),
         "stream-trace" => stream::cmd_trace(rest),
+        #[cfg(feature = "nightly")]
+        "prot-replay" => prot::cmd_replay(rest),
         other => {
             eprintln!("unknown command {}", other);
             std::process::exit(2);
